@@ -250,13 +250,25 @@ def r3_window(repo, rep):
   n = narrow[0]
   v = n.ast.value
   ok = False
+  def as_slice(x_):
+    """A slice object spelled slice(lo, hi[, step]) is the subscript slice lo:hi:step."""
+    x_ = rd.expand(n, x_, keep=(data, par))[0] if not isinstance(x_, ast.Slice) else x_
+    if isinstance(x_, ast.Call) and isinstance(x_.func, ast.Name) and x_.func.id == 'slice' and not x_.keywords and 1 <= len(x_.args) <= 3:
+      a_ = [None if au.is_const(y_, None) else y_ for y_ in x_.args]
+      if len(a_) == 1:
+        return ast.Slice(lower=None, upper=a_[0], step=None)
+      return ast.Slice(lower=a_[0], upper=a_[1], step=a_[2] if len(a_) > 2 else None)
+    return x_
+  vx = v
   if isinstance(v, ast.Subscript) and norm(v.value) == '%s.df.iloc' % data and isinstance(v.slice, ast.Tuple) and len(v.slice.elts) == 2:
-    rows, cols = v.slice.elts
+    rows, cols = (as_slice(x_) for x_ in v.slice.elts)
+    lo_ = rd.expand(n, cols.lower, keep=(data, par))[0] if isinstance(cols, ast.Slice) and cols.lower is not None else None
     ok = isinstance(rows, ast.Slice) and rows.lower is None and rows.upper is None and rows.step is None and \
-        isinstance(cols, ast.Slice) and cols.upper is None and cols.step is None and cols.lower is not None and \
-        norm(cols.lower) == '-%s.n_pretest_max' % par
-  rep.check(ok, 'R3/window', 'data.df is narrowed to its last n_pretest_max columns', f.qualname, norm(n.ast),
-            'the narrowing `%s` does not keep exactly the most recent n_pretest_max dates (all rows, columns -n_pretest_max:)' % norm(v), f.loc(n.ast))
+        isinstance(cols, ast.Slice) and cols.upper is None and cols.step is None and lo_ is not None and \
+        norm(lo_) == '-%s.n_pretest_max' % par
+    vx = rd.expand(n, v, keep=(data, par))[0]
+  rep.check_term(ok, vx, (data, par), 'R3/window', 'data.df is narrowed to its last n_pretest_max columns', f.qualname, norm(n.ast),
+                 'the narrowing `%s` does not keep exactly the most recent n_pretest_max dates (all rows, columns -n_pretest_max:)' % norm(v), f.loc(n.ast))
   doms = g.dominators(cfgmod.no_exc)
   for m in g.nodes:
     if m.kind == 'stmt' and m is not n and '%s.df' % data in norm(m.ast) and not isinstance(m.ast, (ast.FunctionDef,)):
@@ -322,11 +334,24 @@ def r4_data_object(repo, rep):
                 '%s returns `%s`: not the sum over the given geo indices of %s%s' % (mname, txt[:80], arr, ' along the geo axis' if axis else ''), m.loc(r))
 
 
+def r4_data_memo(repo, rep, rule='R4/single-source'):
+  """Values memoised inside the data object (per-group shares or series kept in a field) must be dropped when the geo index
+  or the table they were computed from is replaced: the cache-invalidation discipline of C08, applied to TBRMMData."""
+  from mmsa.props import c08
+  sub = type(rep)(rep.prop, rep.tier, rep.repo)
+  c08.analyse_class(repo, sub, 'tbrmmdata.TBRMMData')
+  for i in sub.instances:
+    if i.rule.startswith('R2/must-reset'):
+      i.rule = rule
+      rep.instances.append(i)
+
+
 def run(repo, rep, tier):
   for name in ('exhaustive_search', 'greedy_search'):
     r1_r2_r5_search(repo, rep, name)
   r3_window(repo, rep)
   r4_data_object(repo, rep)
+  r4_data_memo(repo, rep)
   from mmsa.props import c01, c10
   c01.r5_ids(repo, rep)
   sub = type(rep)(rep.prop, rep.tier, rep.repo)
